@@ -53,6 +53,12 @@ def families(tier):
                                     'inner_q': ['is_dir', 'list_dir'], 'inner_roles': ['o']}, 'weight': 2})
     q.append({'name': 'A3r', 'params': {'hist': 'BMB', 'kinds': ['is_dir', 'exists', 'list_dir'], 'roles': ['o'], 'targets': ['o/d/g'], 'modes': ['ok'],
                                      'mut_paths': ['o/d', 'o/d/g'], 'mut_kinds': ['delete', 'rmtree', 'dir2file', 'file2dir', 'write']}, 'weight': 1})
+    q.append({'name': 'B9', 'params': {'hist': 'BMB', 'universe': ['o', 'o/d'], 'kinds': ['is_dir', 'list_dir', 'exists'],
+                                    'mut_paths': ['o', 'o/d'], 'mut_kinds': ['none', 'rmtree', 'mkdir']}, 'weight': 2})
+    q.append({'name': 'B10', 'params': {'hist': 'BMB', 'universe': ['o', 'o/d', 'o/d/z'], 'kinds': ['is_dir', 'list_dir', 'exists'],
+                                     'mut_paths': ['o', 'o/d', 'o/d/z'], 'mut_kinds': ['none', 'rmtree', 'delete', 'mkdir']}, 'weight': 2})
+    q.append({'name': 'A10', 'params': {'hist': 'BMB', 'kinds': ['is_dir', 'list_dir'], 'mut_paths': ['o/d/g', 'o/d', 'o/f'],
+                                     'mut_kinds': ['none', 'delete', 'rmtree', 'write']}, 'weight': 1})
     q.append({'name': 'V1', 'params': {'hist': 'BBB', 'universe': ['o', 'o/d', 'o/d/g']}, 'weight': 1})
     q.append({'name': 'P2', 'params': {'hist': 'BBB', 'universe': ['o', 'o/d', 'o/dx']}, 'weight': 1})
     q.append({'name': 'A8b', 'params': {'hist': 'BMB', 'kinds': ['is_dir', 'list_dir'], 'mut_paths': ['o/d/z', 'o/d/e/z', 'o/d/e']}, 'weight': 1})
@@ -70,6 +76,8 @@ def families(tier):
         {'name': 'A7', 'params': {'hist': 'BMB', 'kinds': KINDS_SMALL, 'roles': ['in/x', 'in']}, 'weight': 3},
         {'name': 'B1', 'params': {'hist': 'BMB', 'kinds': ['is_dir', 'list_dir']}, 'weight': 2},
         {'name': 'B2', 'params': {'hist': 'BMB'}, 'weight': 2},
+        {'name': 'B9', 'params': {'hist': 'BMB', 'universe': ['o', 'o/d', 'o/f'], 'kinds': ['is_dir', 'list_dir', 'exists'],
+                                  'mut_paths': ['o', 'o/d', 'o/f'], 'mut_kinds': ['none', 'rmtree', 'delete', 'mkdir', 'write']}, 'weight': 2},
         {'name': 'B3', 'params': {'hist': 'BMB'}, 'weight': 2},
         {'name': 'B6a', 'params': {'hist': 'BMB', 'kinds': KINDS_SMALL}, 'weight': 2},
         {'name': 'B6b', 'params': {'hist': 'BMB'}, 'weight': 2},
